@@ -127,6 +127,25 @@ fn digest(rt: &CoreRuntime) -> String {
     for o in 0..0x100u32 {
         feed(rt.memory.read_internal_byte(o).unwrap_or(0));
     }
+    // LCD: the controller registers of both chips (on, start line, page, column) and the VRAM payload
+    if let Some(lcd) = rt.lcd.as_ref() {
+        let (meta, payload) = lcd.export_snapshot();
+        if let Some(chips) = meta.get("chips").and_then(|c| c.as_array()) {
+            for chip in chips {
+                for key in ["on", "start_line", "page", "y_address"] {
+                    let v = match chip.get(key) {
+                        Some(serde_json::Value::Bool(b)) => *b as u64,
+                        Some(x) => x.as_u64().unwrap_or(0),
+                        None => 0,
+                    };
+                    feed(v as u8);
+                }
+            }
+        }
+        for b in payload {
+            feed(b);
+        }
+    }
     format!("{h:016x}")
 }
 
